@@ -57,7 +57,7 @@ AEvictTo(m) ==
     /\ Occupied > HIGH                          \* above the high-water mark
     /\ m \in 0..Len(lru)
     /\ KeepPrefix(m)                            \* least recently used first
-    /\ dead' \in 0..(dead + Cardinality(live))
+    /\ dead' \in 0..(dead + Cardinality(live) - m)      \* each evicted entry leaves at most one dead position
 
 AThaw ==
     /\ freeze > 0
